@@ -16,7 +16,7 @@ def fang (j : Json) : Except String Fang := do
   match (← jstr j "k") with
   | "plain" => pure .plain
   | "jwt" => pure .jwt
-  | "basic" => pure .basic
+  | "basic" | "basic2" => pure .basic          -- `[BasicAuth; N]` documents itself as `BasicAuth` does
   | "tag" => pure (.tag ("t" ++ toString ((j.getObjValD "id").getNat?.toOption.getD 0)).toList)
   | k => throw s!"fang kind {k}"
 
